@@ -19,7 +19,7 @@ from .model import real_body, u
 
 PURE_FUNCS = {"set", "frozenset", "len", "dict", "list", "tuple", "sorted", "int", "str", "bool", "isinstance", "range", "enumerate", "zip",
               "min", "max", "sum", "any", "all", "reversed", "iter", "issubclass", "hasattr", "type", "abs", "float", "callable", "divmod", "round",
-              "ord", "chr", "bytes", "repr", "id"}
+              "ord", "chr", "bytes", "repr", "id", "replace"}      # (dataclasses.replace builds a new object)
 PURE_METHODS = {"values", "items", "keys", "get", "copy", "groups", "group", "startswith", "endswith", "join", "index", "count"}
 
 
@@ -316,9 +316,10 @@ def _forward_subst(stmts, pure_calls, keep, nreads):
             if not isinstance(s, (ast.FunctionDef, ast.ClassDef, ast.AsyncFunctionDef)) and hasattr(s, "body"):
                 _store_kill(env, s)
             if isinstance(s, ast.While):
-                s.test = _Subst(env).visit(s.test)
-                killed = _assigned_names(s.body + s.orelse)
+                # (the test is evaluated again after every iteration: what the body rebinds is unknown in it)
+                killed = _assigned_names(s.body + s.orelse) | {n.target.id for n in ast.walk(s.test) if isinstance(n, ast.NamedExpr)}
                 _kill(env, killed)
+                s.test = _Subst(env).visit(s.test)
                 s.body = block(s.body, dict(env))
                 s.orelse = block(s.orelse, dict(env))
                 _kill(env, killed)
